@@ -1,7 +1,7 @@
 //! C17 -- spsc channel (and AtomicWaker) driven single-threaded under a schedule taken from the case,
 //! one public call sequence per scheduled step; plus a real-thread stress component.
 use h_common::{main_with, Cur, V};
-use s2n_quic_core::sync::spsc;
+use s2n_quic_core::sync::{cursor, spsc, worker};
 use std::{
     cell::{Cell, RefCell},
     rc::Rc,
@@ -325,6 +325,138 @@ fn spsc_mt(input: &[V]) -> Vec<V> {
     ]
 }
 
+/// sync/cursor.rs: case = [log2 size; (op, arg)*]; see coq/model/CursorRing.v
+fn cursor_ring(input: &[V]) -> Vec<V> {
+    use std::ptr::NonNull;
+    use std::sync::atomic::AtomicU32;
+    let mut c = Cur::new(input);
+    let k = c.next().clamp(0, 10) as u32;
+    let size = 1u32 << k;
+    let prod = Box::new(AtomicU32::new(0));
+    let cons = Box::new(AtomicU32::new(0));
+    let mut data = vec![0u64; size as usize];
+    let builder = || cursor::Builder::<u64> {
+        producer: NonNull::from(&*prod),
+        consumer: NonNull::from(&*cons),
+        data: NonNull::new(data.as_ptr() as *mut u64).unwrap(),
+        size,
+    };
+    let mut p = unsafe { builder().build_producer() };
+    let mut q = unsafe { builder().build_consumer() };
+    let mut next: u64 = 1;
+    let mut out = vec![];
+    while !c.done() {
+        let op = c.next();
+        let arg = c.next().clamp(0, 100000) as u32;
+        match op {
+            0 => out.push(p.acquire_producer(arg) as V),
+            1 => {
+                let (a, b) = unsafe { p.producer_data() };
+                let avail = (a.len() + b.len()) as u32;
+                let n = arg.min(avail);
+                for slot in a.iter_mut().chain(b.iter_mut()).take(n as usize) {
+                    *slot = next;
+                    next += 1;
+                }
+                p.release_producer(n);
+                out.push(n as V);
+            }
+            2 => out.push(q.acquire_consumer(arg) as V),
+            _ => {
+                let (a, b) = unsafe { q.consumer_data() };
+                let avail = (a.len() + b.len()) as u32;
+                let n = arg.min(avail);
+                let vals: Vec<V> = a.iter().chain(b.iter()).take(n as usize).map(|v| *v as V).collect();
+                q.release_consumer(n);
+                out.push(n as V);
+                out.extend(vals);
+            }
+        }
+    }
+    drop(p);
+    drop(q);
+    let _keep = data.len();
+    out
+}
+
+/// sync/worker.rs: case = (op, arg)*; see coq/model/Worker.v
+fn worker_chan(input: &[V]) -> Vec<V> {
+    let mut c = Cur::new(input);
+    let (send, mut recv) = worker::channel();
+    let mut send = Some(send);
+    let count = Arc::new(CountWaker(AtomicUsize::new(0)));
+    let waker = Waker::from(count.clone());
+    let mut credits: usize = 0;
+    let mut out = vec![];
+    while !c.done() {
+        let op = c.next();
+        let arg = c.next().clamp(0, 1_000_000) as usize;
+        match op {
+            0 => match send.as_ref() {
+                Some(s) => {
+                    s.submit(arg);
+                    out.push(0);
+                }
+                None => out.push(9),
+            },
+            1 => match recv.poll_acquire(&mut Context::from_waker(&waker)) {
+                Poll::Pending => {
+                    out.push(0);
+                    out.push(credits as V);
+                }
+                Poll::Ready(Some(n)) => {
+                    credits = n;
+                    out.push(1);
+                    out.push(n as V);
+                }
+                Poll::Ready(None) => {
+                    out.push(2);
+                    out.push(credits as V);
+                }
+            },
+            2 => {
+                let n = arg.min(credits);
+                recv.finish(n);
+                credits -= n;
+                out.push(credits as V);
+            }
+            _ => {
+                if send.take().is_some() {
+                    out.push(0);
+                } else {
+                    out.push(9);
+                }
+            }
+        }
+        out.push(count.0.load(Ordering::SeqCst) as V);
+    }
+    out
+}
+
+/// demonstration for the worker Clone observation (not part of the check): clone the Sender, drop the
+/// clone, poll (the original Sender is still alive), submit through the original, poll again.
+/// output: code of poll 1 (0 Pending, 1 Some, 2 None), code and credits of poll 2
+fn worker_clone(_input: &[V]) -> Vec<V> {
+    let (send, mut recv) = worker::channel();
+    let count = Arc::new(CountWaker(AtomicUsize::new(0)));
+    let waker = Waker::from(count.clone());
+    let code = |p: Poll<Option<usize>>| -> (V, V) {
+        match p {
+            Poll::Pending => (0, 0),
+            Poll::Ready(Some(n)) => (1, n as V),
+            Poll::Ready(None) => (2, 0),
+        }
+    };
+    let clone = send.clone();
+    drop(clone);
+    let a = code(recv.poll_acquire(&mut Context::from_waker(&waker)));
+    send.submit(3);
+    let b = code(recv.poll_acquire(&mut Context::from_waker(&waker)));
+    drop(send);
+    let c = code(recv.poll_acquire(&mut Context::from_waker(&waker)));
+    vec![a.0, b.0, b.1, c.0, c.1]
+}
+
 fn main() {
-    main_with(&[("spsc", spsc), ("spsc_mt", spsc_mt)]);
+    main_with(&[("spsc", spsc), ("spsc_mt", spsc_mt), ("cursor", cursor_ring), ("worker", worker_chan), ("worker_clone", worker_clone)]);
 }
